@@ -150,8 +150,21 @@ def a_stmt(rng, targets, allow_if=True):
     r = rng.random()
     t = lambda: mref(rng.choice(targets)) if targets and rng.random() < 0.9 else mref(rng.randrange(64000))
     if r < 0.16:
-        items = [rng.choice([a_nexpr(rng), a_sexpr(rng)]) for _ in range(rng.randrange(0, 3))]
-        return rng.choice(['PRINT ', '? ', 'PRINT']) + rng.choice([';', ',', ' ']).join(items) + rng.choice(['', ';', ''])
+        # items of every kind next to each other: plain string and integer variables, a signed number behind a separator, a long
+        # name followed by an operator word (the minifier may have to guard it), expressions
+        def item():
+            q = rng.random()
+            if q < 0.15:
+                return rng.choice(A_SVARS + A_IVARS)
+            if q < 0.30:
+                return rng.choice(['+', '-', '+ ', '- ']) + rng.choice([a_num(rng), rng.choice(A_VARS), a_nexpr(rng, 2)])
+            if q < 0.45:
+                return f"{rng.choice(A_VARS)} {rng.choice(['OR', 'AND'])} {rng.choice(['1', rng.choice(A_VARS)])}"
+            return rng.choice([a_nexpr(rng), a_sexpr(rng)])
+        items = [item() for _ in range(rng.randrange(0, 4))]
+        seps = [rng.choice([';', ',', ' ', ';', '; ']) for _ in items]
+        body = ''.join(it + sp for it, sp in zip(items, seps[:-1] + [''])) if items else ''
+        return rng.choice(['PRINT ', '? ', 'PRINT']) + body + rng.choice(['', ';', ''])
     if r < 0.28:
         return rng.choice(['', 'LET ']) + f"{rng.choice(A_VARS + A_IVARS)} = {a_nexpr(rng)}"
     if r < 0.34:
@@ -231,6 +244,9 @@ def applesoft_program(rng, nlines=None, refs_resolve=True, rem_data=True):
             stmts.append(a_stmt(rng, nums if refs_resolve else []))
             if stmts[-1].startswith('IF') or stmts[-1].startswith('ON'):
                 break
+        if rem_data and rng.random() < 0.06 and not any(x.startswith(('REM', 'DATA', 'IF', 'ON')) for x in stmts[-1:]):
+            # a string left open at the end of the line, also as a lone quote behind a blank
+            stmts.append(rng.choice([f'{rng.choice(A_SVARS)} = "', f'{rng.choice(A_SVARS)}="', 'PRINT "A"; "', f'PRINT {rng.choice(A_SVARS)};"', 'PRINT "OPEN', f'{rng.choice(A_SVARS)} = "X Y']))
         body = rng.choice([':', ' : ', ': ']).join(stmts)
         pre = rng.choice(['', '', ' ', '  '])
         line = f"{pre}{mdef(num)}{rng.choice([' ', '', '  '])}{body}"
